@@ -156,11 +156,11 @@ def stepF (cap : Nat) : Call → FM
 
 /-- a caller that goes on after an error (like `run`): per call the observation or the error; the writer
 keeps whatever the failed call left in it -/
-def runF (cap : Nat) : List Call → State → State × List (Except WErr Obs)
+def runSink (cap : Nat) : List Call → State → State × List (Except WErr Obs)
   | [], s => (s, [])
   | c :: cs, s =>
     match stepF cap c s with
-    | (.ok (), s') => let r := runF cap cs s'; (r.1, .ok s'.obs :: r.2)
-    | (.error e, s') => let r := runF cap cs s'; (r.1, .error e :: r.2)
+    | (.ok (), s') => let r := runSink cap cs s'; (r.1, .ok s'.obs :: r.2)
+    | (.error e, s') => let r := runSink cap cs s'; (r.1, .error e :: r.2)
 
 end Jomini.Writer
